@@ -53,7 +53,9 @@ SidOf(s, toClient) == IF toClient THEN s.cid ELSE s.ssid
 StOf(s, toClient)  == IF toClient THEN s.cst ELSE s.sst
 ConnName(toClient) == IF toClient THEN "client" ELSE "server"
 SetSt(w, i, toClient, v) == IF toClient THEN [w EXCEPT !.sl[i].cst = v] ELSE [w EXCEPT !.sl[i].sst = v]
-OutRec(toClient, sid, kind, d) == [k |-> "out", conn |-> ConnName(toClient), sid |-> sid, kind |-> kind, d |-> d]
+OutRec(toClient, sid, kind, d) == [k |-> "out", conn |-> ConnName(toClient), sid |-> sid, kind |-> kind, d |-> d,
+                                   code |-> 0]
+ResetCode(sid) == 100 + sid      \* the error code the environment uses for a reset on stream sid
 HookRec(i, name) == [k |-> "hook", f |-> i, name |-> name]
 
 \* w = [sl, nxt, out]
@@ -148,7 +150,8 @@ StreamIn(c, sid, kind) ==
   /\ ops' = ops + 1 /\ UNCHANGED <<cev, tdone>>
   /\ LET fc  == c = "client"
          d   == IF kind \in {"data", "data_end"} THEN nd ELSE 0
-         rec == [k |-> "in", conn |-> c, sid |-> sid, kind |-> kind, d |-> d]
+         rec == [k |-> "in", conn |-> c, sid |-> sid, kind |-> kind, d |-> d,
+                 code |-> IF kind = "reset" THEN ResetCode(sid) ELSE 0]
      IN /\ nd' = IF d # 0 THEN nd + 1 ELSE nd
         /\ sent' = sent \cup (IF kind = "reset" THEN {<<c, sid, "reset">>}
                               ELSE IF kind \in {"end", "data_end"} THEN {<<c, sid, "fin">>} ELSE {})
@@ -168,7 +171,7 @@ StreamIn(c, sid, kind) ==
                           \* preserve stream resets: an empty FIN for the other side's stream id becomes a reset
                           LET wr  == CloseStream([wC EXCEPT !.out = <<>>], i, fc)
                               oid == SidOf(wr.sl[i], ~fc)
-                              cv(o) == IF o.k = "out" /\ o.kind = "end" /\ o.sid = oid THEN [o EXCEPT !.kind = "reset"] ELSE o
+                              cv(o) == IF o.k = "out" /\ o.kind = "end" /\ o.sid = oid THEN [o EXCEPT !.kind = "reset", !.code = ResetCode(sid)] ELSE o
                           IN [wr EXCEPT !.out = wC.out \o [j \in 1..Len(wr.out) |-> cv(wr.out[j])]]
                      ELSE wC
            IN Commit(wD)
